@@ -38,3 +38,24 @@ Fixpoint table_get (tbl : list (Z * Qc)) (d : Z) : Qc :=
 Definition mktblock (rev : bool) (radii : list nat) (g : Z -> QcK) (mask : option nat) (norm : bool) (off : nat)
            (mix : Qc) : tblock QcK Z :=
   {| tb_rev := rev; tb_radii := radii; tb_g := g; tb_mask := mask; tb_norm := norm; tb_off := off; tb_mix := mix |}.
+
+(* the matrix of an event list as an association list (first-occurrence order of the keys); Proofs/K03_Qc_proofs.v
+   shows that looking a key up in it is `sumby` *)
+Fixpoint acc_add (r c : nat) (v : Qc) (m : list (nat * nat * Qc)) : list (nat * nat * Qc) :=
+  match m with
+  | [] => [(r, c, v)]
+  | (r', c', v') :: t => if Nat.eqb r r' && Nat.eqb c c' then (r', c', (v' + v)%Qc) :: t
+                         else (r', c', v') :: acc_add r c v t
+  end.
+
+Definition matrix_of (evs : list (event QcK)) : list (nat * nat * Qc) :=
+  fold_left (fun m (e : event QcK) => acc_add (e_row e) (e_col e) (e_val e : Qc) m) evs [].
+
+Fixpoint matrix_get (m : list (nat * nat * Qc)) (r c : nat) : Qc :=
+  match m with
+  | [] => 0%Qc
+  | (r', c', v') :: t => if Nat.eqb r r' && Nat.eqb c c' then v' else matrix_get t r c
+  end.
+
+Definition show_matrix (evs : list (event QcK)) : list (nat * nat * (Z * Z)) :=
+  map (fun rcv => (fst (fst rcv), snd (fst rcv), show (snd rcv))) (matrix_of evs).
